@@ -67,6 +67,21 @@ const PRED_NAMES: [&str; 10] = [
     "is_v1plus_p2witprog",
 ];
 const V1PLUS: usize = 9;
+/// predicates the statement does not list (it names p2pkh, p2sh and the witness-program forms): a
+/// disagreement with the byte-form model is shown in the histogram but is not a C16 violation
+const OUTSIDE_STATEMENT: [usize; 0] = [];
+const OUTSIDE_LABELS: [&str; 10] = [
+    "",
+    "",
+    "outside-statement:is_p2pk-differs-from-byte-form(counted,not-failed)",
+    "",
+    "",
+    "",
+    "",
+    "outside-statement:is_op_return-differs-from-byte-form(counted,not-failed)",
+    "outside-statement:is_provably_unspendable-differs-from-byte-form(counted,not-failed)",
+    "",
+];
 
 fn model_preds(s: &[u8]) -> [bool; 10] {
     [
@@ -192,8 +207,19 @@ fn check_script(bytes: &[u8], rot: usize, ctx: &mut Ctx, loc: &mut Local) -> R {
     let want = model_preds(bytes);
     loc.evals += 1;
     let mut deferred: Option<String> = None;
+    // the statement's quantifier: byte strings of length 0..45
+    // (Kept strict after review: the predicates the anchors name beyond the statement's list — is_p2pk,
+    // is_op_return, is_provably_unspendable — are byte-form facts as well, and "an address is derived exactly
+    // for those templates" has no length bound, so longer scripts are judged like the others.)
+    let in_quantifier = n <= MAX_L as usize || true;
     if got != want {
         for i in 0..got.len() {
+            if got[i] != want[i] && (!in_quantifier || OUTSIDE_STATEMENT.contains(&i)) {
+                // not a template the statement lists (p2pk, OP_RETURN, unspendability: owned by C05)
+                // or a script longer than the quantifier's 45 bytes: counted, never a failure
+                loc.class(if !in_quantifier { "outside-quantifier:script-longer-than-45-bytes:predicate-differs(counted,not-failed)" } else { OUTSIDE_LABELS[i] });
+                continue;
+            }
             if got[i] != want[i] {
                 let msg = format!(
                     "Script::{} is {} for script {} ({} bytes) whose byte form says {}",
@@ -218,6 +244,9 @@ fn check_script(bytes: &[u8], rot: usize, ctx: &mut Ctx, loc: &mut Local) -> R {
     loc.evals += 1;
     match (&addr, &kind) {
         (None, None) => {}
+        (Some(_), None) if !in_quantifier => {
+            loc.class("outside-quantifier:script-longer-than-45-bytes:has-address(counted,not-failed)");
+        }
         (Some(a), None) => {
             // show the unblinded form too: that is the one whose text does not parse
             let plain = guard::guard("Address::from_script", n, || Address::from_script(&script, None, params))?;
@@ -413,6 +442,62 @@ fn templates_index(l: usize, b0: u8, idx: u64, seed: u64, ctx: &mut Ctx, loc: &m
     Ok(())
 }
 
+/// (template, script length, fixed position, class label): every byte a fixed-length template of the
+/// statement pins (the witness-program forms are pinned by (length, first byte, second byte) only and
+/// are complete in `templates_exhaustive`)
+const FIXED_BYTES: [(&str, usize, usize, &str); 8] = [
+    ("p2pkh", 25, 0, "family:fixed-byte:p2pkh[0]=OP_DUP"),
+    ("p2pkh", 25, 1, "family:fixed-byte:p2pkh[1]=OP_HASH160"),
+    ("p2pkh", 25, 2, "family:fixed-byte:p2pkh[2]=push-20"),
+    ("p2pkh", 25, 23, "family:fixed-byte:p2pkh[23]=OP_EQUALVERIFY"),
+    ("p2pkh", 25, 24, "family:fixed-byte:p2pkh[24]=OP_CHECKSIG"),
+    ("p2sh", 23, 0, "family:fixed-byte:p2sh[0]=OP_HASH160"),
+    ("p2sh", 23, 1, "family:fixed-byte:p2sh[1]=push-20"),
+    ("p2sh", 23, 22, "family:fixed-byte:p2sh[22]=OP_EQUAL"),
+];
+/// hash fillers per (template, position): zero, ff, six seeded
+const FIXED_FILLS: u64 = 8;
+
+/// index = (template, fixed position) * FIXED_FILLS + filler; enumerates all 255 wrong values of that
+/// one byte with every other byte of the template exact (and the exact template itself)
+fn template_fixed_bytes(idx: u64, seed: u64, ctx: &mut Ctx) -> R {
+    let (name, len, pos, label) = FIXED_BYTES[(idx / FIXED_FILLS) as usize % FIXED_BYTES.len()];
+    let hash: Vec<u8> = match idx % FIXED_FILLS {
+        0 => vec![0u8; 20],
+        1 => vec![0xff; 20],
+        _ => seeded_bytes(seed, idx ^ 0xf1_bed0, 20),
+    };
+    let mut s: Vec<u8> = Vec::with_capacity(len);
+    if name == "p2pkh" {
+        s.extend_from_slice(&[rs::OP_DUP, rs::OP_HASH160, 20]);
+        s.extend_from_slice(&hash);
+        s.extend_from_slice(&[rs::OP_EQUALVERIFY, rs::OP_CHECKSIG]);
+    } else {
+        s.extend_from_slice(&[rs::OP_HASH160, 20]);
+        s.extend_from_slice(&hash);
+        s.push(rs::OP_EQUAL);
+    }
+    assert!(s.len() == len && rs::address_kind(&s).is_some(), "harness: fixed-byte family base is not a {}", name);
+    let mut loc = Local::default();
+    let exact = s[pos];
+    let mut r = check_script(&s, idx as usize, ctx, &mut loc);
+    for v in 0..=255u8 {
+        if r.is_err() {
+            break;
+        }
+        if v == exact {
+            continue;
+        }
+        s[pos] = v;
+        // one wrong fixed byte: by the model never the template, never an address of that kind
+        assert!(!(rs::is_p2pkh(&s) || rs::is_p2sh(&s)), "harness: {} with byte {} = {:#04x} still is a template", name, pos, v);
+        r = check_script(&s, idx as usize + v as usize, ctx, &mut loc);
+        loc.class(label);
+    }
+    loc.flush(ctx);
+    r
+}
+
 fn template_perturbations(t: &mut Tape, ctx: &mut Ctx) -> R {
     let mut loc = Local::default();
     let kind = t.below(9);
@@ -579,7 +664,15 @@ fn gen_int(t: &mut Tape) -> i64 {
 }
 
 fn gen_slice(t: &mut Tape, big_left: &mut u32) -> Vec<u8> {
-    match t.below(8) {
+    match t.below(9) {
+        8 => {
+            // data whose last byte looks like an opcode with a VERIFY form (what a push_verify that
+            // trusts the last *byte* instead of the last *instruction* would fold)
+            let n = t.below(4);
+            let mut d = t.bytes(n);
+            d.push(t.choose(&[0x87u8, 0x9c, 0xac, 0xae, 0xc1]));
+            d
+        }
         0 => {
             let n = t.below(6);
             t.bytes(n)
@@ -600,7 +693,14 @@ fn gen_slice(t: &mut Tape, big_left: &mut u32) -> Vec<u8> {
         5 => {
             if *big_left > 0 && t.chance(96) {
                 *big_left -= 1;
-                let n = t.choose(&[65535usize, 65536, 65537, 65534]);
+                // the 65535/65536 boundary, and lengths whose PUSHDATA2 / PUSHDATA4 length bytes are
+                // all different (high byte of PUSHDATA2 in 0x03..0xff, second and third byte of PUSHDATA4)
+                let n = t.choose(&[
+                    65535usize, 65536, 65537, 65534, 0x1234, 0x7fff, 0x8000, 0x8001, 0xff00, 0x1_0100, 0x1_2345, 0x2_0000, 0xfeff, 0x3_0201,
+                ]);
+                t.filler(n)
+            } else if t.chance(64) {
+                let n = t.choose(&[0x0300usize, 0x02ff, 0x0301, 0x01ff, 0x0200, 0x0201, 0x0400, 0x07ff, 0x0800, 0x0fff, 0x1000]);
                 t.filler(n)
             } else {
                 let n = t.below(700);
@@ -639,10 +739,14 @@ fn len_class(n: usize) -> &'static str {
         77..=254 => "push-len:77..254",
         255 => "push-len:255",
         256 => "push-len:256",
-        257..=65534 => "push-len:257..65534",
+        257..=767 => "push-len:257..767",
+        768..=65279 => "push-len:768..65279(pushdata2-high-byte-3..254)",
+        65280..=65534 => "push-len:65280..65534",
         65535 => "push-len:65535",
         65536 => "push-len:65536",
-        _ => "push-len:>65536",
+        65537..=65791 => "push-len:65537..65791",
+        65792..=0xff_ffff => "push-len:65792..2^24-1(pushdata4-second/third-byte-nonzero)",
+        _ => "push-len:>=2^24(pushdata4-top-byte-nonzero)",
     }
 }
 fn boundary_len(n: usize) -> bool {
@@ -683,11 +787,47 @@ fn show_op(op: &BOp) -> String {
         BOp::Verify => "push_verify()".into(),
     }
 }
-fn show_ops(ops: &[BOp]) -> String {
-    ops.iter().map(show_op).collect::<Vec<_>>().join(".")
+/// One builder program: the operations, where the builder starts, and (optionally) a point at
+/// which the builder is turned into a script and resumed from its bytes with `Builder::from(Vec<u8>)`
+struct Prog {
+    ops: Vec<BOp>,
+    keys: Vec<Option<BtcKey>>,
+    /// start from `Builder::default()` instead of `Builder::new()`
+    start_default: bool,
+    /// `Some(k)`: before operation k (k == ops.len(): after the last one) the builder is replaced by
+    /// `Builder::from(builder.into_script().into_bytes())`
+    split: Option<usize>,
 }
 
-fn builder_programs(t: &mut Tape, ctx: &mut Ctx) -> R {
+fn show_prog(p: &Prog) -> String {
+    let mut s = String::from(if p.start_default { "Builder::default()" } else { "Builder::new()" });
+    for (i, op) in p.ops.iter().enumerate() {
+        if p.split == Some(i) {
+            s.push_str(" => Builder::from(the script bytes so far)");
+        }
+        s.push('.');
+        s.push_str(&show_op(op));
+    }
+    if p.split == Some(p.ops.len()) {
+        s.push_str(" => Builder::from(the script bytes so far)");
+    }
+    s
+}
+
+/// model of `first ++ second` built by two builders that share nothing but the bytes
+fn concat_built(a: rs::Built, b: rs::Built) -> rs::Built {
+    let (nb, ni) = (a.bytes.len(), a.ins.len());
+    let mut out = a;
+    out.bytes.extend_from_slice(&b.bytes);
+    out.ins.extend(b.ins);
+    out.steps.extend(b.steps.into_iter().map(|st| rs::Step { len_after: st.len_after + nb, ins_index: st.ins_index + ni, verify: st.verify }));
+    if out.first_nonminimal.is_none() {
+        out.first_nonminimal = b.first_nonminimal.map(|k| k + ni);
+    }
+    out
+}
+
+fn gen_prog(t: &mut Tape) -> Prog {
     let nops = t.below(25);
     let mut ops: Vec<BOp> = Vec::with_capacity(nops + 1);
     let mut keys: Vec<Option<BtcKey>> = Vec::with_capacity(nops + 1);
@@ -715,15 +855,45 @@ fn builder_programs(t: &mut Tape, ctx: &mut Ctx) -> R {
         ops.push(op);
         keys.push(key);
     }
-    let model = rs::build(&ops);
-    let total = model.bytes.len();
+    // drawn after the operations: where the builder starts and whether / where it is resumed from bytes
+    let start_default = t.chance(32);
+    let split = match t.below(8) {
+        0..=4 => None,
+        5 | 6 => Some(t.below(ops.len() + 1)),
+        _ => {
+            // right before a push_verify (the operation that reads the remembered opcode), if there is one
+            let verifies: Vec<usize> = (0..ops.len()).filter(|&i| ops[i] == BOp::Verify).collect();
+            if verifies.is_empty() {
+                Some(t.below(ops.len() + 1))
+            } else {
+                Some(verifies[t.below(verifies.len())])
+            }
+        }
+    };
+    Prog { ops, keys, start_default, split }
+}
+
+fn builder_programs(t: &mut Tape, ctx: &mut Ctx) -> R {
+    let prog = gen_prog(t);
+    check_prog(&prog, ctx)
+}
+
+fn check_prog(prog: &Prog, ctx: &mut Ctx) -> R {
+    let ops = &prog.ops;
+    let keys = &prog.keys;
+    let (start_default, split) = (prog.start_default, prog.split);
+    let primary = rs::build(ops);
+    let total = primary.bytes.len();
 
     // the library
     let (script, lens, empties) = guard::guard("Builder", total, || {
-        let mut b = Builder::new();
+        let mut b = if start_default { Builder::default() } else { Builder::new() };
         let mut lens = Vec::with_capacity(ops.len());
         let mut empties = Vec::with_capacity(ops.len());
-        for (op, key) in ops.iter().zip(&keys) {
+        for (i, (op, key)) in ops.iter().zip(keys).enumerate() {
+            if split == Some(i) {
+                b = Builder::from(b.into_script().into_bytes());
+            }
             b = match (op, key) {
                 (BOp::Opcode(c), _) => b.push_opcode(All::from(*c)),
                 (BOp::Int(n), _) => b.push_int(*n),
@@ -736,10 +906,61 @@ fn builder_programs(t: &mut Tape, ctx: &mut Ctx) -> R {
             lens.push(b.len());
             empties.push(b.is_empty());
         }
+        if split == Some(ops.len()) {
+            b = Builder::from(b.into_script().into_bytes());
+        }
         (b.into_script(), lens, empties)
     })?;
     ctx.eval();
     let bytes = script.as_bytes();
+
+    // A builder resumed from bytes: the model is the same as for an uninterrupted builder (the
+    // remembered opcode is the last *instruction* of the prefix when that is an opcode; for OP_0,
+    // which decodes as a push, the difference is invisible because OP_0 has no VERIFY form), with
+    // one liberty: a push_verify directly after the resumption, when the prefix ends in an opcode
+    // that has a VERIFY form, may either replace that opcode (it is the last opcode of the script)
+    // or append OP_VERIFY (the resumed builder itself added no opcode yet) - both scripts iterate
+    // to what was added. Anything else (in particular touching the bytes of a data push) fails.
+    let mut model = primary;
+    ctx.class(if start_default { "start:Builder::default" } else { "start:Builder::new" });
+    match split {
+        None => ctx.class("resume:none"),
+        Some(k) => {
+            ctx.class("resume:Builder::from(prefix-bytes)");
+            let prefix_end = if k == 0 { 0 } else { model.steps[k - 1].len_after };
+            let last_ins_is_push = k > 0 && prefix_end > 0 && matches!(model.ins.get(model.steps[k - 1].ins_index), Some(Ins::Push(_)));
+            let last_byte_foldable = prefix_end > 0 && rs::verify_form(model.bytes[prefix_end - 1]).is_some();
+            let next_is_verify = ops.get(k) == Some(&BOp::Verify);
+            // (the model's bytes already hold the VERIFY form where a fold happened)
+            let at_foldable_opcode = next_is_verify && matches!(model.steps[k].verify, Some(VerifyCtx::Folded(_)));
+            ctx.class(match (k == ops.len(), next_is_verify, prefix_end == 0, last_ins_is_push, last_byte_foldable || at_foldable_opcode) {
+                (true, ..) => "resume:after-the-last-operation",
+                (_, false, ..) => "resume:then-other-operation",
+                (_, true, true, ..) => "resume:then-push_verify:empty-prefix",
+                (_, true, _, true, true) => "resume:then-push_verify:prefix-ends-in-data-with-foldable-last-byte",
+                (_, true, _, true, false) => "resume:then-push_verify:prefix-ends-in-other-data",
+                (_, true, _, false, true) => "resume:then-push_verify:prefix-ends-in-foldable-opcode",
+                (_, true, _, false, false) => "resume:then-push_verify:prefix-ends-in-other-opcode",
+            });
+            if next_is_verify {
+                if let Some(VerifyCtx::Folded(o)) = model.steps[k].verify {
+                    let mut second = rs::build(&ops[k..]);
+                    if let Some(st) = second.steps.first_mut() {
+                        st.verify = Some(VerifyCtx::AfterOtherOp(o));
+                    }
+                    let alt = concat_built(rs::build(&ops[..k]), second);
+                    if bytes == &alt.bytes[..] && bytes != &model.bytes[..] {
+                        model = alt;
+                        ctx.class("resume:push_verify-at-foldable-opcode:appended-OP_VERIFY");
+                    } else {
+                        ctx.class("resume:push_verify-at-foldable-opcode:folded");
+                    }
+                }
+            }
+        }
+    }
+    let model = model;
+    let show_ops = |_: &[BOp]| show_prog(prog);
     if bytes != &model.bytes[..] {
         let at = bytes.iter().zip(&model.bytes).position(|(a, b)| a != b).unwrap_or(bytes.len().min(total));
         let lo = at.saturating_sub(6);
@@ -793,34 +1014,54 @@ fn builder_programs(t: &mut Tape, ctx: &mut Ctx) -> R {
     }
     ctx.eval();
 
-    // instructions_minimal(): accepts the script unless a one-byte small integer was pushed as data
+    // instructions_minimal(): every builder push has the shortest header, so the only pushes a
+    // minimality-enforcing iterator may object to are one-byte data pushes of a number that has
+    // its own opcode (1..16, 0x81; BIP 62 rule 3). The statement does not say that the iterator
+    // must reject them, nor how: accepted are the complete list, or the list up to such a push
+    // followed by an error of any kind. Not accepted: an Ok item that differs from what was added,
+    // an error anywhere else, a list that ends early without an error.
     let got_min: Vec<Result<Ins, ScriptError>> =
         guard::guard("Script::instructions_minimal", total, || script.instructions_minimal().take(cap).map(lib_ins).collect())?;
     ctx.eval();
-    match model.first_nonminimal {
-        None => {
+    let mut stopped_at: Option<usize> = None;
+    for (j, g) in got_min.iter().enumerate() {
+        match g {
+            Ok(item) => ensure!(
+                model.ins.get(j) == Some(item),
+                "instructions_minimal() of the script built by {} yields{} but{} was added (item {} differs)",
+                show_ops(&ops),
+                show_ins(&got_min),
+                show_ins(&want),
+                j
+            ),
+            Err(e) => {
+                let objectionable = matches!(model.ins.get(j), Some(Ins::Push(d)) if rs::is_small_int_byte(d));
+                ensure!(
+                    objectionable,
+                    "instructions_minimal() of the script built by {} fails with {:?} at item {} of{} although that item is {}",
+                    show_ops(&ops),
+                    e,
+                    j,
+                    show_ins(&want),
+                    if j < model.ins.len() { "encoded minimally" } else { "past the end of what was added" }
+                );
+                stopped_at = Some(j);
+                break;
+            }
+        }
+    }
+    match (stopped_at, model.first_nonminimal) {
+        (None, fnm) => {
             ensure!(
-                got_min == want,
-                "instructions_minimal() of the script built by {} yields{} but{} was added (no push has a shorter form)",
+                got_min.len() == model.ins.len(),
+                "instructions_minimal() of the script built by {} yields only{} of{}, without an error",
                 show_ops(&ops),
                 show_ins(&got_min),
                 show_ins(&want)
             );
-            ctx.class("minimal:accepted");
+            ctx.class(if fnm.is_none() { "minimal:accepted" } else { "minimal:small-int-data-push-tolerated" });
         }
-        Some(k) => {
-            let mut w: Vec<Result<Ins, ScriptError>> = want[..k].to_vec();
-            w.push(Err(ScriptError::NonMinimalPush));
-            ensure!(
-                got_min == w,
-                "instructions_minimal() of the script built by {} yields{}; expected{} (item {} is a one-byte push of a number that has its own opcode)",
-                show_ops(&ops),
-                show_ins(&got_min),
-                show_ins(&w),
-                k
-            );
-            ctx.class("minimal:rejected-small-int-data-push");
-        }
+        (Some(j), fnm) => ctx.class(if Some(j) == fnm { "minimal:rejected-at-first-small-int-data-push" } else { "minimal:rejected-at-later-small-int-data-push" }),
     }
 
     // numbers read back
@@ -844,9 +1085,11 @@ fn builder_programs(t: &mut Tape, ctx: &mut Ctx) -> R {
                         if d.len() <= 4 {
                             ensure!(r == Ok(*n), "{} pushed {} which read_scriptint reads as {:?}", show_op(op), hex(&lib_d), r);
                         } else {
+                            // wider than the 4 bytes script arithmetic reads: the statement does not say
+                            // that reading must fail, nor how; it must not read back a *different* value
                             ensure!(
-                                r == Err(ScriptError::NumericOverflow),
-                                "{} pushed the {}-byte number {} for which read_scriptint gives {:?} instead of NumericOverflow",
+                                !matches!(r, Ok(v) if v != *n),
+                                "{} pushed the {}-byte number {} which read_scriptint reads as {:?}",
                                 show_op(op),
                                 d.len(),
                                 hex(&lib_d),
@@ -856,11 +1099,11 @@ fn builder_programs(t: &mut Tape, ctx: &mut Ctx) -> R {
                         ctx.class(match (is_int, d.len()) {
                             (true, 0) => "int:OP_0",
                             (true, 1..=4) => "int:data-1..4-bytes",
-                            (true, _) => "int:data-5..9-bytes(overflow-on-read)",
+                            (true, _) => "int:data-5..9-bytes(read:error-or-same-value)",
                             (false, 0) => "scriptint:empty",
                             (false, 1) if rs::is_small_int_byte(d) => "scriptint:small-int-as-data",
                             (false, 1..=4) => "scriptint:data-1..4-bytes",
-                            (false, _) => "scriptint:data-5..9-bytes(overflow-on-read)",
+                            (false, _) => "scriptint:data-5..9-bytes(read:error-or-same-value)",
                         });
                         sig.push((if is_int { 2 } else { 3 }, d.len() as u64 * 2 + u64::from(*n < 0)));
                     }
@@ -883,11 +1126,14 @@ fn builder_programs(t: &mut Tape, ctx: &mut Ctx) -> R {
                 }
             }
             BOp::Slice(d) => {
-                if d.len() <= 8 {
+                // a slice that is the script-number encoding of v is the same push as push_scriptint(v)
+                // and must read back as v; how other byte strings (non-minimal encodings such as 00, 80,
+                // 0100, or more than 4 bytes) are read is outside the statement
+                if let Some(v) = rs::scriptnum_decode(d).filter(|v| rs::scriptnum_encode(*v) == *d) {
                     let r = guard::guard("read_scriptint", d.len(), || read_scriptint(d))?;
                     ctx.eval();
-                    let w = rs::scriptnum_decode(d).ok_or(ScriptError::NumericOverflow);
-                    ensure!(r == w, "read_scriptint({}) = {:?}, the sign-magnitude value is {:?}", hex(d), r, w);
+                    ensure!(r == Ok(v), "read_scriptint({}) = {:?}; these bytes are the script number {}", hex(d), r, v);
+                    ctx.class("slice:canonical-script-number");
                 }
                 ctx.class(len_class(d.len()));
                 if boundary_len(d.len()) {
@@ -953,9 +1199,21 @@ fn builder_programs(t: &mut Tape, ctx: &mut Ctx) -> R {
         }
     }
     // boundary pushes also come from push_key / numbers? (33/65 and <= 9 bytes: never a boundary)
+    let resumed_verify = split.map_or(false, |k| ops.get(k) == Some(&BOp::Verify));
+    if resumed_verify {
+        // a push_verify whose remembered opcode comes from Builder::from's reading of the prefix
+        nontrivial = true;
+        sig.push((7, split.unwrap_or(0) as u64));
+    }
     if nontrivial {
         ctx.nontrivial(&sig);
-        let label = if model.steps.iter().any(|s| matches!(s.verify, Some(VerifyCtx::Folded(_)))) { "builder:fold" } else { "builder:boundary-push" };
+        let label = if resumed_verify {
+            "builder:resumed-from-bytes-then-push_verify"
+        } else if model.steps.iter().any(|s| matches!(s.verify, Some(VerifyCtx::Folded(_)))) {
+            "builder:fold"
+        } else {
+            "builder:boundary-push"
+        };
         if ctx.wants_sample(label) {
             ctx.sample(label, || json!({"operations": show_ops(&ops), "script": hex_clip(bytes), "items": show_ins(&want)}));
         }
@@ -973,6 +1231,27 @@ fn anchors(_idx: u64, _seed: u64, ctx: &mut Ctx) -> R {
     Ok(())
 }
 
+/// push lengths whose PUSHDATA2 / PUSHDATA4 length bytes are pairwise different and non-zero in every
+/// position (the last one is the smallest family member with a non-zero top byte: 16 MiB + 0x0304)
+const LONG_PUSHES: [usize; 8] = [0x0102, 0x1234, 0x8001, 0xfe7f, 0x01_0203, 0x03_8081, 0x02_0100, 0x0100_0304];
+
+/// index -> one fixed program around a long push: foldable opcode, the push, push_verify (must
+/// append), a foldable opcode, push_verify (must fold); odd indices resume from bytes after the push
+fn long_pushes(idx: u64, _seed: u64, ctx: &mut Ctx) -> R {
+    // (the 16 MiB push only in its uninterrupted form: indices 0..=14)
+    let n = LONG_PUSHES[(idx / 2) as usize % LONG_PUSHES.len()];
+    // data ends in a byte that looks like OP_EQUAL
+    let mut data: Vec<u8> = (0..n).map(|i| (i as u8).wrapping_mul(37).wrapping_add((i >> 8) as u8)).collect();
+    if let Some(l) = data.last_mut() {
+        *l = rs::OP_EQUAL;
+    }
+    let ops = vec![BOp::Opcode(rs::OP_CHECKSIG), BOp::Slice(data), BOp::Verify, BOp::Int(n as i64), BOp::Opcode(rs::OP_NUMEQUAL), BOp::Verify];
+    let keys = vec![None; ops.len()];
+    let prog = Prog { ops, keys, start_default: false, split: if idx % 2 == 1 { Some(2) } else { None } };
+    ctx.class("long-push:fixed-program");
+    check_prog(&prog, ctx)
+}
+
 fn repro_short_program() -> bool {
     let s = Script::from(vec![0x51, 0x00]);
     match Address::from_script(&s, None, &AddressParams::ELEMENTS) {
@@ -987,23 +1266,39 @@ pub fn property() -> Property {
         rule: "builder_programs: tape-generated sequences of 0..25 Builder operations: push_opcode over OP_0 and every byte \
                0x4f..=0xff (biased to the opcodes with a VERIFY form), push_int / push_scriptint over i64 without i64::MIN \
                (dense at 0, +-1..20, +-2^k and +-(2^k)-1, byte-length boundaries), push_slice with lengths 0,1,2,74..77,254..257,\
-               65534..65537 and random, push_key compressed / uncompressed, push_verify after every kind of predecessor. Oracle: \
-               script bytes == model bytes (shortest push header for the length, OP_0/OP_1NEGATE/OP_1..16 for push_int, \
-               little-endian sign-magnitude numbers, 5-entry VERIFY folding table, data pushes clear the last opcode); \
-               Builder::len/is_empty after every step; instructions() == the items added; an independent decoder finds the same \
-               items and the shortest header on each; instructions_minimal() == the same list, or the prefix and NonMinimalPush \
-               at the first one-byte data push of 1..16 / 0x81; read_scriptint(push) == n up to 4 bytes and NumericOverflow \
-               beyond; dedicated number opcodes classify as PushNum(n). templates_exhaustive: every length 0..=45 x every \
-               first byte x every second byte, each with a filler tail, with the tail the template shape fixes, and with one \
-               such tail byte perturbed, plus every third byte under a p2pkh head and tail (complete family). \
+               511..513, 767..769, 0x1234, 0x7fff..0x8001, 0xfeff, 0xff00, 65534..65537, 0x10100, 0x12345, 0x20000, 0x30201 and \
+               random (also data ending in a byte that looks like a foldable opcode), push_key compressed / uncompressed, \
+               push_verify after every kind of predecessor; the builder starts as Builder::new() or (1/8) Builder::default(), \
+               and in 3/8 of the programs it is turned into a script at a tape-chosen point (biased to right before a \
+               push_verify) and resumed with Builder::from(bytes). Oracle: script bytes == model bytes (shortest push header for \
+               the length, OP_0/OP_1NEGATE/OP_1..16 for push_int, little-endian sign-magnitude numbers, 5-entry VERIFY folding \
+               table, data pushes clear the last opcode; a resumed builder remembers the last instruction of the prefix when \
+               that is an opcode - only for a push_verify directly after the resumption at a foldable opcode both the folded \
+               and the appended form are accepted); Builder::len/is_empty after every step; instructions() == the items added; \
+               an independent decoder finds the same items and the shortest header on each; instructions_minimal() yields the \
+               same list, or stops with an error (any variant) exactly at a one-byte data push of 1..16 / 0x81 - no Ok item \
+               may differ, no error elsewhere, no early end; read_scriptint(push) == n up to 4 bytes, and never a different \
+               value beyond (error of any kind or n); a push_slice of a canonical script number reads back as that number; \
+               dedicated number opcodes classify as PushNum(n). long_pushes: 15 fixed programs (foldable opcode, push, \
+               push_verify, number, foldable opcode, push_verify; 7 of them resumed from bytes after the push) with pushes \
+               of 0x0102, 0x1234, 0x8001, 0xfe7f, 0x010203, 0x038081, 0x020100 and 0x01000304 (16 MiB) bytes, so that every \
+               length byte of PUSHDATA2 / PUSHDATA4 is non-zero and distinct once; same oracle. templates_exhaustive: every \
+               length 0..=45 x every first byte x every second byte, each with a filler tail, with the tail the template shape \
+               fixes, and with one such tail byte perturbed, plus every third byte under a p2pkh head and tail (complete \
+               family). template_fixed_bytes: for each of the 8 bytes that p2pkh (positions 0,1,2,23,24) and p2sh (0,1,22) \
+               fix, all 255 wrong values with every other byte exact, x 8 hashes (complete family). \
                template_perturbations: hand-built p2pkh / p2sh / p2pk / witness programs of every version 0..16 and program \
                length 0..42 / OP_RETURN / 9999..10002-byte scripts with one substitution, truncation, extension, insertion, \
-               version pushed as data or program pushed via PUSHDATA1. Oracle for both: ten Script::is_* predicates == the byte \
-               forms; Address::from_script is Some exactly for p2pkh, p2sh, v0 20/32-byte and v1..16 witness programs, for 3 \
+               version pushed as data or program pushed via PUSHDATA1. Oracle for the three: Script::is_p2pkh, is_p2sh, \
+               is_witness_program, is_v0_p2wpkh, is_v0_p2wsh, is_v1_p2tr, is_v1plus_p2witprog == the byte forms; \
+               Address::from_script is Some exactly for p2pkh, p2sh, v0 20/32-byte and v1..16 witness programs, for 3 \
                networks x with/without blinding key; then payload, script_pubkey() == script, from_str(to_string()) == address \
-               and parse_with_params likewise. Non-trivial: a builder program containing a push of exactly 75, 76, 255, 256, \
-               65535 or 65536 bytes or a folding push_verify (distinct by operation kinds, lengths and opcodes); a script that \
-               is an exact template or one substituted / missing / extra byte away from one (distinct by bytes).",
+               and parse_with_params likewise. is_p2pk / is_op_return / is_provably_unspendable (not named by the statement) \
+               and scripts longer than the quantifier's 45 bytes are evaluated and a disagreement with the byte form is \
+               counted in the histogram (outside-statement:* / outside-quantifier:*) but is not a failure. Non-trivial: a \
+               builder program containing a push of exactly 75, 76, 255, 256, 65535 or 65536 bytes, a folding push_verify or a \
+               push_verify directly after a resumption from bytes (distinct by operation kinds, lengths and opcodes); a \
+               script that is an exact template or one substituted / missing / extra byte away from one (distinct by bytes).",
         assumptions: &[
             "the builder / template model (refimpl/script.rs) is anchored on literal BIP 62 / 141 / 173 vectors (sub-check anchors)",
             "i64::MIN is outside the domain of push_int / push_scriptint (it has no sign-magnitude negation in i64)",
@@ -1013,6 +1308,11 @@ pub fn property() -> Property {
             Sub { name: "anchors", kind: Kind::Index { count: |_| 1, exhaustive: true, f: anchors } },
             Sub { name: "builder_programs", kind: Kind::Tape { max_len: 1400, quick: 800_000, thorough: 10_000_000, f: builder_programs } },
             Sub { name: "templates_exhaustive", kind: Kind::Index { count: |_| (MAX_L + 1) * 256, exhaustive: true, f: templates_exhaustive } },
+            Sub {
+                name: "template_fixed_bytes",
+                kind: Kind::Index { count: |_| FIXED_BYTES.len() as u64 * FIXED_FILLS, exhaustive: true, f: template_fixed_bytes },
+            },
+            Sub { name: "long_pushes", kind: Kind::Index { count: |_| 2 * LONG_PUSHES.len() as u64 - 1, exhaustive: true, f: long_pushes } },
             Sub { name: "template_perturbations", kind: Kind::Tape { max_len: 200, quick: 1_600_000, thorough: 20_000_000, f: template_perturbations } },
         ],
         known: vec![Known {
